@@ -217,6 +217,26 @@ theorem good_step (B : Nat → Nat) (N : Nat) (valid : File → Bool) (f0 : Opti
             by simp only [hpos]; exact h3, by simp only [hopen, hpos]; exact h4⟩
       · cases hs
     · cases hs
+  | replace i =>
+    simp only [step] at hs
+    split at hs
+    · rename_i hph
+      injection hs with hs
+      subst hs
+      refine ⟨?_, ?_, ?_⟩
+      · intro j p h
+        rcases bool_cases i j with h' | h'
+        · subst h'; simp only [setPh_same] at h; cases h
+        · subst h'; simp only [setPh_not] at h; exact hb _ _ h
+      · intro h0 h1
+        exfalso
+        cases i <;> simp [Phase.opened] at h0 h1
+      · intro j _
+        refine ⟨i, File.full B N, rfl, by simp [Phase.opened], rfl, by simp [File.full], ?_, ?_, ?_⟩
+        · simp [posOf, File.full]
+        · intro j _; simp [File.full]
+        · intro _; simp [posOf, File.full]
+    · cases hs
 
 theorem good_run (B : Nat → Nat) (N : Nat) (valid : File → Bool) (f0 : Option File) :
     ∀ (acts : List Act) (s s' : Sys), Good B N f0 s → runActs B N valid s acts = some s' → Good B N f0 s' := by
